@@ -82,3 +82,26 @@ func DetachEmptyComments(f *ast.File) {
 		return true
 	})
 }
+
+// Parenthesize puts parentheses around the operands that go/printer prints
+// without them although they do not stand on their own there.
+//
+// The printer relies on the parser, which keeps the parentheses of the
+// source in the tree. Code that stands where a metavariable stood has none:
+// "*x" with "a + b" for x would be printed as "*a + b", and "chan x" with
+// "<-chan int" for x as "chan<- chan int", which are other programs.
+func Parenthesize(f *ast.File) {
+	ast.Inspect(f, func(n ast.Node) bool {
+		switch n := n.(type) {
+		case *ast.StarExpr:
+			if _, ok := n.X.(*ast.BinaryExpr); ok {
+				n.X = &ast.ParenExpr{Lparen: n.X.Pos(), X: n.X, Rparen: n.X.End()}
+			}
+		case *ast.ChanType:
+			if v, ok := n.Value.(*ast.ChanType); ok && v.Dir == ast.RECV && n.Dir != ast.RECV {
+				n.Value = &ast.ParenExpr{Lparen: v.Pos(), X: v, Rparen: v.End()}
+			}
+		}
+		return true
+	})
+}
